@@ -77,7 +77,33 @@ def grid_polygon(rng, W, H, allow_outside=True):
     return ops
 
 
+def hull_curve_path(rng, W, H):
+    """a flat quadratic that runs far in x over a fraction of a pixel in y and ends with a vertical tangent exactly on the
+    path's left (or right) extreme, closed by straight edges on the other side: the curve's sample-row crossings must stay
+    inside the path's bounds (the rasteriser sizes its coverage mask by them)"""
+    left = rng.random() < 0.5
+    y0 = q(rng.randrange(-6, max(1, H * 4)))
+    a = q(rng.choice([1, 2, 2, 2, 3, rng.randrange(1, 6)])); b = a + q(rng.choice([1, 1, 1, 2, rng.randrange(1, 6)]))
+    span = q(rng.randrange(min(24, (W + 1) * 4), max(25, (W + 3) * 4)))
+    far = span + q(rng.randrange(0, 12))
+    xe = q(rng.randrange(-4, max(1, W * 2))) if left else q(rng.randrange(W * 2, (W + 1) * 4))
+    if rng.random() < 0.7:      # extreme exactly on a pixel boundary: any overshoot leaves the bounds
+        xe = float(rng.randrange(0, max(1, W // 2 + 1))) if left else float(rng.randrange(W // 2, W + 1))
+    sg = 1 if left else -1
+    xs, xf = xe + sg * span, xe + sg * far
+    if rng.random() < 0.3:      # off the quarter grid
+        xs += sg * rng.random() * 0.2; y0 += rng.random() * 0.2
+    # control point: on the extreme (vertical tangent at the end) or anywhere between (the curve arrives at a shallow angle)
+    xc = xe if rng.random() < 0.7 else xe + (xs - xe) * rng.choice([0.25, 0.5, 0.75, rng.random()])
+    ops = ["M " + fpt(xs, y0), "Q %s %s" % (fpt(xc, y0 + a), fpt(xe, y0 + b)), "L " + fpt(xf, y0 + b), "L " + fpt(xf, y0), "Z"]
+    if rng.random() < 0.3:      # the same curve walked upwards
+        ops = ["M " + fpt(xe, y0 + b), "Q %s %s" % (fpt(xc, y0 + a), fpt(xs, y0)), "L " + fpt(xf, y0), "L " + fpt(xf, y0 + b), "Z"]
+    return ops
+
+
 def curvy_path(rng, W, H):
+    if rng.random() < 0.15:
+        return hull_curve_path(rng, W, H)
     ops = []
     def P():
         return (q(rng.randrange(-8, (W + 2) * 4)), q(rng.randrange(-8, (H + 2) * 4)))
